@@ -36,13 +36,7 @@ type Entry struct {
 	Pax   map[string]string
 }
 
-func get64(b []byte, off int) int64 {
-	var u uint64
-	for i := 0; i < 8; i++ {
-		u = u<<8 | uint64(b[off+i])
-	}
-	return int64(u)
-}
+func get64(b []byte, off int) int64 { return zz.Get64(b, off) }
 
 // DecodeTar returns the entries of a tar stream and whether it ends with the
 // two-zero-block end-of-archive marker.
